@@ -48,6 +48,9 @@ func main() {
 		if v := os.Getenv("GOSYM_SUMHASH"); v != "" {
 			cfg.Redirect = map[string]string{"rcproxy/core/pkg/hashkit.Hash": "rcproxy/core.VerifSpecHash"}
 		}
+		if os.Getenv("GOSYM_NOMAPORDER") != "" {
+			cfg.MapOrderOff = true
+		}
 		if os.Getenv("GOSYM_NOIFCONV") != "" {
 			cfg.NoIfConv = true
 		}
